@@ -89,6 +89,7 @@ pub fn main(args: &Args) -> i32 {
         Family { menu: Menu::ClientArgs, k: args.tier.pick(3, 4) },
         Family { menu: Menu::Pointers, k: args.tier.pick(3, 4) },
         Family { menu: Menu::Overlap, k: args.tier.pick(2, 3) },
+        Family { menu: Menu::Lists, k: args.tier.pick(3, 4) },
     ];
     let res = sweep::run(args, families);
     let mut verdict = Verdict::new("C09");
